@@ -69,6 +69,8 @@ struct MorphObs {
     split_a: String,
     split_b: String,
     sub_panics: Vec<(String, String)>,
+    /// `Some(part_of_speech_id())` of a morpheme that says `is_oov()`
+    oov_pos: Option<u16>,
 }
 
 #[derive(Clone, Debug, Default)]
@@ -85,6 +87,8 @@ struct Whole {
     icost: String,
     /// accessors of the result LIST that panicked: (accessor, message)
     list_panics: Vec<(String, String)>,
+    /// longest row of the lattice of this text (`ends_full[e].len()` over the rows of the text), read before `collect_results`
+    maxrow: usize,
 }
 
 enum Ana {
@@ -239,6 +243,11 @@ fn whole_here(dic: D, text: &str, mode: Mode, hist: &Hist) -> Whole {
     let t = tok.verif_input().verif_tables();
     w.cur = t.modified.clone();
     w.m2o = t.m2o.clone();
+    {
+        let lat = tok.verif_lattice();
+        let size = lat.verif_size();
+        w.maxrow = lat.verif_row_lens().iter().take(size).map(|x| x.1).max().unwrap_or(0);
+    }
     match catch(|| ml.collect_results(&mut tok)) {
         Err(msg) => { w.outcome = "PANIC".into(); w.stage = "collect".into(); w.msg = msg; return w; }
         Ok(Err(e)) => { w.outcome = format!("err:{}", err_class(&e)); w.stage = "collect".into(); return w; }
@@ -255,6 +264,7 @@ fn whole_here(dic: D, text: &str, mode: Mode, hist: &Hist) -> Whole {
         let mut mo = MorphObs::default();
         mo.p = probe(&m, base);
         mo.node = catch(|| m.verif_node_range()).unwrap_or((0, 0, 0, 0));
+        mo.oov_pos = catch(|| if m.is_oov() { Some(m.part_of_speech_id()) } else { None }).unwrap_or(None);
         if let Ok((a, b)) = catch(|| { let wi = m.get_word_info(); (wi.a_unit_split().to_vec(), wi.b_unit_split().to_vec()) }) {
             mo.units_a = units_of(&dic, &a);
             mo.units_b = units_of(&dic, &b);
@@ -1106,7 +1116,11 @@ fn pipe_case(run: &mut Run, idx: usize, rng: &mut Rng, pc: &PipeCtx) {
             let ans = if w.outcome == "ok" {
                 let ms = w.morphs.iter().map(|m| format!("{}:{}:{}:{}/{}", m.node.0, m.node.1, m.node.2, m.node.3, m.p.acc)).collect::<Vec<_>>().join(";");
                 if w.icost == "P" { run.bump("pipe:get_internal_cost-panics"); }
-                format!("ok n={} {} cost={}", w.morphs.len(), ms, w.icost)
+                let oov = w.morphs.iter().filter_map(|m| m.oov_pos.map(|p| format!("{}:{}:{}", m.node.0, m.node.1, p))).collect::<Vec<_>>();
+                if !oov.is_empty() { run.bump("pipe:oov-morphemes"); }
+                let rows = if w.cur.is_empty() { 0 } else { w.maxrow };
+                run.bump(&format!("pipe:longest-row:{}", if rows >= 16 { "16+".to_string() } else { rows.to_string() }));
+                format!("ok n={} {} cost={} rows={} oov={}", w.morphs.len(), ms, w.icost, rows, if oov.is_empty() { "-".to_string() } else { oov.join(",") })
             } else if w.outcome.starts_with("err:Other") { "err:Other".to_string() } else { w.outcome.clone() };
             let split_seen = w.morphs.len() >= 2 && (mode != Mode::C);
             if w.outcome == "ok" {
@@ -1205,6 +1219,64 @@ non-trivial = access line with a changed text or a split, cost line with >= 2 no
                     }
                 }
                 Err(e) => run.fail_with_line(idx, "", "c03:internal-cost-split:dictionary", &format!("the directed dictionary does not build/load: {}", e)),
+            }
+            continue;
+        }
+        if idx == EXTRA_DIRECTED + 1 {
+            // the exact threshold of D7 on the real tokenizer: one-character words of cost -32768 over a 1x1 matrix of
+            // -32768: 32767 characters are analysed (last total -2^31 + 65536), 32768 characters overflow at connect_eos
+            // (Lean: C03.cost_overflow_threshold / C03.cost_no_overflow_partial)
+            let rows = vec![Row::simple("1", 0, 0, -32768, NUMERAL), Row::simple("あ", 0, 0, 100, NOUN)];
+            match dict_from("C03-d-neg", &rows, "1 1\n0 0 -32768\n", &[], &[simple_oov_json(0, 0, -32768)], &[]) {
+                Ok((_wd, dic)) => {
+                    for (name, n) in [("d7-neg-chain-32767", 32767usize), ("d7-neg-chain-32768", 32768usize)] {
+                        let text = rep("1", n);
+                        let hist = Hist::default();
+                        let ana = whole(&dic, &text, Mode::C, 120_000, &hist);
+                        run.bump(&format!("directed:{}", name));
+                        if let Ana::Done(w) = &ana { run.bump(&format!("directed:{}:{}", name, w.outcome)); }
+                        let ex = Expect { tag: name, fallback: true, default_plugin: false, limit_relevant: true, may_delete_all: false };
+                        judge(run, idx, &ex, &text, Mode::C, &ana, "directed", &hist);
+                    }
+                    chain_case(run, idx, 32767, -32768, -32768, -32768);
+                    chain_case(run, idx, 32768, -32768, -32768, -32768);
+                }
+                Err(e) => run.fail_with_line(idx, "", "c03:d7-neg-chain:dictionary", &format!("the directed dictionary does not build/load: {}", e)),
+            }
+            continue;
+        }
+        if idx == EXTRA_DIRECTED + 2 {
+            // the point `hrowsz` excludes, on the real tokenizer: a grouped class (ALPHA 1 1 1) with 4 unk.def lines and a run of
+            // 16400 letters puts 4 x 16400 = 65600 grouped candidates into the row of the run's end, so the u16 row index of
+            // the back-pointer wraps for the candidates that begin in the last 16 positions.  C03 demands: no panic, every
+            // accessor defined, the morphemes partition the text (judge); WHICH path comes out is C02's clause and is recorded.
+            let wd = Workdir::new("C03-d-rowwrap");
+            wd.write("char.def", "DEFAULT 0 1 0\nALPHA 1 1 1\n0x0061..0x007A ALPHA\n");
+            let pos = crate::dict::POS[0].join(",");
+            wd.write("unk.def", &format!("DEFAULT,0,0,100,{p}\nALPHA,0,0,-10,{p}\nALPHA,0,0,-9,{p}\nALPHA,0,0,-8,{p}\nALPHA,0,0,-7,{p}\n", p = pos));
+            let rows = vec![Row::simple("あ", 0, 0, 100, NOUN)];
+            let built = build_system(csv_of(&rows, &default_pos()).as_bytes(), "1 1\n0 0 0\n".as_bytes())
+                .and_then(|sys| load(&config_json(&wd, &[], &[crate::c13::mecab_json(), simple_oov_json(0, 0, 3000)], &[], &[]), sys, vec![]));
+            match built {
+                Ok(d) => {
+                    let dic: D = Arc::new(d);
+                    for (name, n) in [("row-wrap-below", 16000usize), ("row-wrap", 16400usize)] {
+                        let text = rep("a", n);
+                        let hist = Hist::default();
+                        let t0 = std::time::Instant::now();
+                        let ana = whole(&dic, &text, Mode::C, 300_000, &hist);
+                        run.bump(&format!("directed:{}", name));
+                        if let Ana::Done(w) = &ana {
+                            let obs = format!("{} x 'a': outcome {}, longest row {}, {} morphemes (the cheapest path has {}), {} ms",
+                                n, w.outcome, w.maxrow, w.morphs.len(), n, t0.elapsed().as_millis());
+                            run.bump(&format!("directed:{}:row>{}:morphemes={}", name, if w.maxrow > 65535 { "65535" } else { "<=65535" }, if w.morphs.len() == n { "cheapest-path".to_string() } else { w.morphs.len().to_string() }));
+                            run.extra.insert(format!("observation_{}", name.replace('-', "_")), serde_json::json!(obs));
+                        }
+                        let ex = Expect { tag: name, fallback: true, default_plugin: false, limit_relevant: true, may_delete_all: false };
+                        judge(run, idx, &ex, &text, Mode::C, &ana, "directed", &hist);
+                    }
+                }
+                Err(e) => run.fail_with_line(idx, "", "c03:row-wrap:dictionary", &format!("the directed dictionary does not build/load: {}", e)),
             }
             continue;
         }
